@@ -32,10 +32,11 @@ TARGETS = {
     "wallet_utils": ["list_get", "Bip32Path.is_hardened", "Bip32Path.is_private", "Bip32Path.convert_hardened",
                      "Bip32Path._to_list", "Bip32Path.to_list", "Bip32Path.integrity_check", "Bip32Path.__init__",
                      "Bip32Path.m", "Bip32Path.repr_hardened", "Bip32Path.__repr__", "Bip32Path.parse"],
-    "script": ["Script.raw_serialize", "Script.serialize"],
+    "script": ["Script.raw_serialize", "Script.serialize", "Script.__init__", "p2wsh_script", "p2wpkh_script", "p2sh_script", "p2pkh_script"],
     "bip39": ["correct_entropy_bits_value", "checksum_length", "mnemonic_sentence_length", "mnemonic_from_entropy"],
     "bip85": ["BIP85DeterministicEntropy.byte_count_from_word_count"],
     "ripemd": ["fi", "rol", "compress", "ripemd160"],
+    "keys": ["PrivateKey.__bytes__", "PrivateKey.wif"],
     "__main__": ["value_in_interval", "address_index", "account_index", "extended_key", "mnemonic", "bip39_seed", "entropy_hex"],
 }
 # external primitives: name -> (params, expected source of the body).  Their semantics is a parameter of the theorems.
@@ -428,6 +429,14 @@ class FunTrans:
                 return "(EBuiltin %s %s)" % (b, self.exprs(e.args[:1], scope))
             if f.value.id == "bytes" and f.attr == "fromhex" and len(e.args) == 1 and not e.keywords:
                 return "(EBuiltin BFromHex %s)" % self.exprs(e.args, scope)
+        # bytes(self) inside a class that defines __bytes__: that method (no subclass overrides it: structure premise)
+        if isinstance(f, ast.Name) and f.id == "bytes" and not self.is_local("bytes", scope) and len(e.args) == 1 and not e.keywords \
+                and isinstance(e.args[0], ast.Name) and e.args[0].id == "self" and self.kind in ("instance", "property") and "self" not in scope:
+            bq = "%s.%s.__bytes__" % (self.mod.name, self.cls)
+            if self.world.kind(bq) == "instance" and self.world.known(bq):
+                self.calls.append(bq)
+                return "(ECall %s (ECons (EVar \"self\") ENil))" % cstr(bq)
+            raise Untranslatable("bytes(self) without a translated __bytes__")
         if isinstance(f, ast.Name) and f.id == "isinstance" and not self.is_local("isinstance", scope) and len(e.args) == 2 and not e.keywords \
                 and isinstance(e.args[1], ast.Name) and e.args[1].id == "int" and not self.is_local("int", scope):
             return "(EBuiltin BIsInstanceInt %s)" % self.exprs(e.args[:1], scope)
